@@ -42,3 +42,24 @@ def is_pow2_ratio(f1, f2):
     r = f1 / f2
     m, e = math.frexp(r)
     return m == 0.5 and (f2 * r == f1)
+
+def exact_size(spec, prefix=None):
+    """exact conversion factor to base units as a Fraction, computed from the definition tree alone
+    (independent of numbat's own factor arithmetic); None if a non-integer exponent occurs"""
+    from fractions import Fraction
+    import struct
+    from . import progdefs
+    def fbits(b): return Fraction(struct.unpack('<d', struct.pack('<Q', b))[0])
+    def unit(fs):
+        r = Fraction(1)
+        for f in fs:
+            if f['ed'] != 1: return None
+            base = Fraction(10 if f['pk'] == 'M' else 2) ** f['pe']
+            if not f['base']:
+                d = unit(f['def'])
+                if d is None: return None
+                base *= fbits(f['factor_bits']) * d
+            r *= base ** f['en']
+        return r
+    fs = progdefs.parse_spec(spec if prefix is None else with_prefix(spec, *prefix))
+    return unit(fs)
